@@ -56,6 +56,9 @@ def gen_config(rng, mode=None, combo=None):
     if test in ("ALPHA_MART", "WALD_SPRT") and (estim in (None, "fixed_alternative_mean", "shrink_trunc") or test == "WALD_SPRT"):
         # eta in (t, u)
         kw["eta"] = t + (u - t) * rng.pick([1 / 64, 0.1, 0.25, 0.5, 0.75, 0.9, 63 / 64])
+        if test == "WALD_SPRT" and rng.chance(0.3):
+            # the SPRT documents its alternative as "float in (0,u)": values at or below the null mean are in range
+            kw["eta"] = u * rng.pick([1 / 64, 0.1, 0.25, 0.4]) if rng.chance(0.8) else t
     if estim == "shrink_trunc":
         kw["c"] = rng.pick([0.05, 0.25, 0.5, 1.0])
         kw["d"] = rng.pick([0.5, 1, 10, 100])
